@@ -109,8 +109,18 @@ def h_leaf_means(ctx, case):
     column order of the genes in the statistics file"""
     from harness.C09 import _write_stats
     leaves = ['clB', 'clA', 'clC'][:case['leaves']]
-    tree = TaxonomyTree(data={'hierarchy': ['cluster'],
-                              'cluster': {lf: [] for lf in leaves}})
+    if case.get('inner'):
+        # a level above the leaves; the validator also accepts an inner
+        # node that has no children
+        data = {'hierarchy': ['class', 'cluster'],
+                'class': {'clsA': list(leaves)},
+                'cluster': {lf: [] for lf in leaves}}
+        if ctx.flag('childless_inner_node'):
+            data['class']['clsZ'] = []
+        tree = TaxonomyTree(data=data)
+    else:
+        tree = TaxonomyTree(data={'hierarchy': ['cluster'],
+                                  'cluster': {lf: [] for lf in leaves}})
     perm = ctx.perm('row_order', len(leaves))
     row_of = {lf: perm[i] for i, lf in enumerate(leaves)}
     genes = [['gB', 'gA', 'gC'][i] for i in ctx.perm('gene_order',
@@ -290,7 +300,8 @@ HARNESSES = [
             expect_reach=['voted'], query_timeout_ms=120000, selftest=10),
     Harness('leaf_means_by_name', h_leaf_means, setup=setup_means,
             cases=[{'leaves': 2, 'genes': 2}, {'leaves': 3, 'genes': 1},
-                   {'leaves': 2, 'genes': 1, 'empty_leaves': True}],
+                   {'leaves': 2, 'genes': 1, 'empty_leaves': True},
+                   {'leaves': 2, 'genes': 1, 'inner': True}],
             thorough_cases=[{'leaves': 3, 'genes': 3}],
             funcs=['matching.get_leaf_means',
                    'score_utils.read_precomputed_stats',
